@@ -24,7 +24,7 @@ fn relevant(a: &OpRec) -> bool {
 
 /// Leaf obligations that are unmet right now: operations that should be able to make progress and do not.
 /// `final_stage`: all gates are open and all streams closed, so nothing is legitimately waiting.
-fn candidates(i: &Inner, only_objs: Option<&[u8]>, dormant_pool_threads: usize, live_pool_threads: usize, pool_task: &dyn Fn(usize) -> bool) -> (Vec<Cand>, usize) {
+fn candidates(i: &Inner, only_objs: Option<&[u8]>, dormant_pool_threads: usize, live_pool_threads: usize, pool_task: &dyn Fn(usize) -> bool, started_with_pool_zero: bool) -> (Vec<Cand>, usize) {
     let mut out = vec![];
     let mut waiting_things = 0usize;
     let pool = i.cur_max;
@@ -97,19 +97,19 @@ fn candidates(i: &Inner, only_objs: Option<&[u8]>, dormant_pool_threads: usize, 
                     continue;
                 }
                 // the slot job needs a runner: a pool thread, or the awaiting task stealing the queue when it polls
-                if (awaited.contains(&id) || o.in_poll > 0 || o.parent.is_some()) && (pool_capacity || pool == 0) {
+                if (awaited.contains(&id) || o.in_poll > 0 || o.parent.is_some()) && (pool_capacity || (pool == 0 && started_with_pool_zero)) {
                     out.push(Cand { op: Some(id), obj: o.obj, prop: "C08", clause: "slot-never-reached", inv: o.inv, ret: o.ret, detail: format!("future_sync #{} on o{} is being awaited but its slot never started", id, o.obj) });
                 }
                 continue;
             }
             if pool >= 1 && pool_capacity && !i.pool_zero {
                 out.push(Cand { op: Some(id), obj: o.obj, prop: "C03", clause: "stranded", inv: o.inv, ret: o.ret, detail: format!("{:?} #{} on o{} was accepted at t={} but never ran although the pool may have {} thread(s)", o.kind, id, o.obj, o.ret, pool) });
-            } else if pool == 0 && awaited.contains(&id) {
+            } else if pool == 0 && started_with_pool_zero && awaited.contains(&id) {
                 out.push(Cand { op: Some(id), obj: o.obj, prop: "C07", clause: "await-no-progress", inv: o.inv, ret: o.ret, detail: format!("{:?} #{} on o{} is being awaited with no pool thread but never ran", o.kind, id, o.obj) });
             }
         } else if let Some(g) = o.waiting_gate {
             // resuming needs the context that ran it (a parked sync caller, a polling task) or a pool thread
-            if i.gates[g].open && (pool_capacity || !pool_task(o.runner_task)) {
+            if i.gates[g].open && (pool_capacity || !pool_task(if o.last_poll_task != usize::MAX { o.last_poll_task } else { o.runner_task })) {
                 out.push(Cand { op: Some(id), obj: o.obj, prop: "C06", clause: "wake-lost", inv: o.inv, ret: o.ret, detail: format!("{:?} #{} on o{} is suspended on gate g{} which was opened at t={} but was never resumed", o.kind, id, o.obj, g, i.gates[g].opened_at) });
             }
         }
@@ -174,7 +174,10 @@ fn attribute(w: &Arc<World>, only_objs: Option<&[u8]>, ctx: &str, snap: &[rt::Ta
     let dormant = snap.iter().filter(|t| t.name == POOL_THREAD_NAME && matches!(t.state, rt::TaskState::Blocked(rt::BlockKind::Recv, _))).count();
     // 'true' unless the task is a live non-pool context (a parked sync caller, a polling task) that the wake-up can resume directly
     let pool_task = |t: usize| snap.get(t).map(|ti| ti.name == POOL_THREAD_NAME || !matches!(ti.state, rt::TaskState::Blocked(rt::BlockKind::Park, _))).unwrap_or(true);
-    let (cands, waiting) = w.with(|i| candidates(i, only_objs, dormant, live_pool, &pool_task));
+    // the pool-0 promises (the awaiting task runs the queue itself) are about a pool that is 0 throughout, not one that was
+    // lowered to 0 while asynchronous work was pending
+    let started_zero = w.case.cfg.pool == 0;
+    let (cands, waiting) = w.with(|i| candidates(i, only_objs, dormant, live_pool, &pool_task, started_zero));
     // every unfinished operation per object, candidate or not: an obligation is only blamed if nothing unfinished is ahead of it
     let unfinished: Vec<(usize, Option<OpId>, u64, bool, u64)> = w.with(|i| {
         i.ops
@@ -444,7 +447,16 @@ pub fn deadlock(w: &Arc<World>, res: &rt::RunResult) {
             }
         }
     } else if stage.contains("despawn") {
-        w.note("C17", "despawn-hang", None, None, format!("despawn_threads_if_overloaded never returned; tasks: {}", blocked.join(", ")));
+        // a pool thread stuck on a mutex while the root joins it: the despawn holds a lock the job needs (C17).
+        // pool threads stuck in a condvar / park are inside a sync of the generated program that was already stuck.
+        let pool_blocked: Vec<&rt::TaskInfo> = res.tasks.iter().filter(|t| t.name == POOL_THREAD_NAME && t.state != rt::TaskState::Finished).collect();
+        let program_stuck = pool_blocked.iter().any(|t| matches!(t.state, rt::TaskState::Blocked(rt::BlockKind::Condvar, _) | rt::TaskState::Blocked(rt::BlockKind::Park, _)));
+        let on_mutex = pool_blocked.iter().any(|t| matches!(t.state, rt::TaskState::Blocked(rt::BlockKind::Mutex, _)));
+        if on_mutex || !program_stuck {
+            w.note("C17", "despawn-hang", None, None, format!("despawn_threads_if_overloaded never returned; tasks: {}", blocked.join(", ")));
+        } else {
+            w.note("SATURATED", "despawn-joined-a-thread-stuck-in-the-program", None, None, format!("tasks: {}", blocked.join(", ")));
+        }
     } else if stage.contains("execution-local") {
         w.note("C05", "drop-hang", None, None, format!("dropping the reference chute never returned; tasks: {}", blocked.join(", ")));
     } else {
